@@ -2,6 +2,8 @@
 
 package fit
 
+import "github.com/tormoder/fit/dyncrc16"
+
 // C10 — framing; C11 — truncation and read faults; C16 — options.
 
 func vActivityCounts(f *File) (rec, lap int) {
@@ -160,5 +162,57 @@ func H11b() {
 		vAssert(err != nil, "C11.chain.stray-byte-is-error")
 	}
 	vAssert(len(files) >= 1, "C11.chain.first-file-returned")
+	vReached("end")
+}
+
+// H10big: a file whose data area is larger than the decoder's 4096-byte
+// buffer (concrete records, arbitrary heart-rate bytes in a few of them),
+// read in chunks given by parameter (0 = as much as asked, which exceeds the
+// buffer): exact consumption, no request beyond the frame, all records
+// decoded in order.
+func H10big() {
+	nrec := 720
+	var body []byte
+	body = append(body, 0x40, 0, 0, 0, 0, 2, 0, 1, 0x00, 1, 2, 0x84)
+	body = append(body, 0x00, 4, 1, 0)
+	body = append(body, 0x41, 0, 0, 20, 0, 2, 253, 4, 0x86, 3, 1, 0x02)
+	hr := make([]byte, nrec)
+	for i := 0; i < nrec; i++ {
+		hr[i] = byte(i % 200)
+		if i%240 == 7 {
+			hr[i] = vByte()
+		}
+		body = append(body, 0x01, byte(i), byte(i>>8), 0, 0x20, hr[i])
+	}
+	hdr := make([]byte, 14)
+	vHeader14(hdr, uint32(len(body)))
+	c := dyncrc16.Checksum(hdr[:12])
+	hdr[12], hdr[13] = byte(c), byte(c>>8)
+	data := append(hdr, body...)
+	fc := dyncrc16.Checksum(data)
+	data = append(data, byte(fc), byte(fc>>8))
+	frame := len(data)
+	data = append(data, 0xAA, 0xBB)
+	r := &vReader{data: data, chunk: vParam("chunk"), failAt: -1}
+	f, err := Decode(r)
+	vAssert(err == nil && f != nil, "C10.big.decodes")
+	vAssert(r.pos == frame && r.maxEnd <= frame, "C10.big.consumes-exactly-the-frame")
+	if f != nil {
+		a, _ := f.Activity()
+		ok := a != nil && len(a.Records) == nrec
+		if ok {
+			for i := 0; i < nrec; i += 37 {
+				if a.Records[i].HeartRate != hr[i] {
+					ok = false
+				}
+			}
+			if a.Records[nrec-1].HeartRate != hr[nrec-1] || a.Records[247].HeartRate != hr[247] {
+				ok = false
+			}
+		}
+		vAssert(ok, "C10.big.records-in-order")
+	}
+	r2 := &vReader{data: data, chunk: vParam("chunk"), failAt: -1}
+	vAssert(CheckIntegrity(r2, false) == nil && r2.pos == frame && r2.maxEnd <= frame, "C10.big.checkintegrity")
 	vReached("end")
 }
